@@ -146,7 +146,7 @@ def compare(inc, fresh) -> list[tuple[str, str, dict]]:
                 found.append(("reverted-optional-step-keeps-amended-relations",
                               "an optional PENDING step keeps amended relations of an earlier run", extra))
             else:
-                sig = "graph-differs:" + ",".join(k for k in buildkit.diff_kinds(a3, b3))[:120]
+                sig = "graph-differs:" + ",".join(k for k in (buildkit.diff_kinds(a3, b3) or kinds))[:120]
                 found.append((sig, "the active workflow differs from a build from scratch: " + "; ".join(lines[:4])[:400],
                               extra))
     if stale:
